@@ -377,7 +377,7 @@ class Program:
             lines.append(helpers)
         lines.append(std_driver(name, K, extra_adv, nlo, nhi, self.ret_type))
         text = "\n".join(lines) + "\n"
-        for h in ("H1", "H2", "H3", "H4", "R1", "R2"):
+        for h in ("H1", "H2", "H3", "H4", "R1", "R2", "PT", "PS", "MK"):
             text = text.replace(h + "(", "%s_%s(" % (h, self.pid))
         return text
 
@@ -435,7 +435,7 @@ class Program:
         lines.append(self.driver if self.driver else std_driver(self.name, K, extra_adv, nlo, nhi, self.ret_type))
         text = "\n".join(lines) + "\n"
         # helper functions are private to the program: make their names unique in the package
-        for h in ("H1", "H2", "H3", "H4", "R1", "R2"):
+        for h in ("H1", "H2", "H3", "H4", "R1", "R2", "PT", "PS", "MK"):
             text = text.replace(h + "(", "%s_%s(" % (h, self.pid))
         return text
 
@@ -835,9 +835,29 @@ PANIC_SITES = [
     lambda c: ("raw", "var pp *int\nrt.Emit(43, *pp)"),
     lambda c: ("raw", "panic(\"boom\")"),
     lambda c: ("yieldfrom", "H3(a)"),
+    lambda c: ("raw", "for pi := range PT(a) {\n\tYield(pi + 980)\n}"),
+    lambda c: ("raw", "for range PT(b) {\n\trt.Emit(rt.EFF, 981)\n}"),
+    lambda c: ("raw", "for _, pv := range PS(a) {\n\tYield(pv + 982)\n}"),
+    lambda c: ("raw", "var tab = []int{1, 2}\nreturn_ := tab[a&3]\n_ = return_"),
 ]
 
-PANIC_HELPERS = """func H3(x int) (_ Iter[int]) {
+PANIC_HELPERS = """func PT(x int) *[3]int {
+	rt.Emit(rt.EFF, 985)
+	if x&1 == 0 {
+		panic(x + 7)
+	}
+	return &[3]int{1, 2, 3}
+}
+
+func PS(x int) []int {
+	rt.Emit(rt.EFF, 986)
+	if x&1 == 0 {
+		panic("ps")
+	}
+	return []int{4, 5}
+}
+
+func H3(x int) (_ Iter[int]) {
 	Yield(x + 3000)
 	if x%2 == 0 {
 		panic(x + 1)
@@ -936,6 +956,11 @@ func R2(x int) Iter[int] {
 		Yield(x)
 		x++
 	}
+}
+
+func MK(x int) Iter[int] {
+	rt.Emit(rt.EFF, 750)
+	return H2(x)
 }
 """
 
@@ -1265,12 +1290,22 @@ def c04_programs(strlens=(0, 1, 2, 3), only_int=False):
     kinds.append(("mapii", ["m := map[int]int{1: a, 2: b, 3: a + b}"], "m", "int", "int", ["delete(m, 2)", "m[3] = b + 7", "delete(m, 3)"]))
     kinds.append(("mapnil", ["var m map[int]int"], "m", "int", "int", []))
     kinds.append(("chan", ["ch := make(chan int, 3)\nch <- a\nch <- b\nclose(ch)"], "ch", "int", None, []))
+    kinds.append(("ptrarray", ["pa := [3]int{a, b, a + 1}"], "&pa", "int", "int", ["pa[1] = b + 7"]))
+    # the range expression is a call with an effect: it must be evaluated exactly once
+    kinds.append(("callslice", ["gets := func() []int {\n\trt.Emit(rt.EFF, 71)\n\treturn []int{a, b, a + b}\n}"], "gets()", "int", "int", []))
+    kinds.append(("callptrarray", ["pa := [3]int{a, b, a + 1}\ngetp := func() *[3]int {\n\trt.Emit(rt.EFF, 72)\n\treturn &pa\n}"], "getp()", "int", "int", []))
+    kinds.append(("callmap", ["getm := func() map[int]int {\n\trt.Emit(rt.EFF, 73)\n\treturn map[int]int{1: a, 2: b}\n}"], "getm()", "int", "int", []))
+    kinds.append(("callstr", ["getstr := func() string {\n\trt.Emit(rt.EFF, 74)\n\treturn rt.NondetString(7, 2)\n}"], "getstr()", "int", "rune", []))
     if only_int:
         # range over an integer (go >= 1.22 sources): n symbolic in the driver's range, also n <= 0
         kinds = [("intn", [], "n", "int", None, ["n = n + 5"]), ("intexpr", ["m := n + 1"], "m - 1", "int", None, ["m = 0"])]
     for kname, setup, coll, kt, vt, muts in kinds:
         forms = [("kv", "k", "v", ":="), ("k", "k", None, ":="), ("v", "_", "v", ":="), ("none", None, None, ":="), ("assign", "k", "v", "="),
                  ("assignv", "_", "v", "="), ("assignk", "k", None, "=")]
+        if vt == "int" and not only_int:
+            # the value's left operand depends on the key variable: Go evaluates the operands of the
+            # iteration variables before assigning either
+            forms.append(("assigndep", "k", "dst[k&7]", "="))
         if vt is None:  # channel: one variable only
             forms = [("k", "k", None, ":="), ("none", None, None, ":="), ("assign1", "k", None, "=")]
         for fname, K, V, tok in forms:
@@ -1286,18 +1321,22 @@ def c04_programs(strlens=(0, 1, 2, 3), only_int=False):
             if tok == "=":
                 decl = []
                 if K and K != "_":
-                    decl.append("var k int = -7")
-                if V:
+                    decl.append("var k int = 3")
+                if V == "v":
                     decl.append("var v %s = -9" % ("rune" if vt == "rune" else "int"))
+                elif V:
+                    decl.append("dst := make([]int, 8)")
                 pre.append(("raw", "\n".join(decl)))
             post = []
             if tok == "=":
                 obs = []
                 if K and K != "_":
                     obs.append("int(k)*100")
-                if V:
+                if V == "v":
                     obs.append("int(v)")
                 post.append(("yield", " + ".join(obs) + " + 1"))
+                if V and V != "v":
+                    post.append(("raw", "for di, dv := range dst {\n\trt.Emit(49, di*1000+dv)\n}"))
             shapes = []
             shapes.append(("y", [("yield", val())]))
             shapes.append(("noy", [("assign", "t", "t + " + val())]))
@@ -1321,7 +1360,7 @@ def c04_programs(strlens=(0, 1, 2, 3), only_int=False):
                 tags = {"range:" + kname.rstrip("0123"), "form:" + fname, "body:" + sname}
                 if kname == "array" and V and sname.startswith("mut"):
                     tags.add("range-array-by-value+mutation")
-                if kname.startswith("map"):
+                if "map" in kname:
                     tags.add("map-order")
                 progs.append(Program(pid, stmts, family="rng_" + kname.rstrip("0123"), tags=tags))
         # range inside a non-generator closure of the generator
@@ -1332,7 +1371,7 @@ def c04_programs(strlens=(0, 1, 2, 3), only_int=False):
             stmts += [("yield", "sum() + 1")]
             if muts:
                 stmts += [("raw", muts[0]), ("yield", "sum() + 2")]
-            progs.append(Program("r_%s_closure" % kname, stmts, family="rng_" + kname.rstrip("0123"), tags={"range-in-closure", "range:" + kname.rstrip("0123")} | ({"map-order"} if kname.startswith("map") else set())))
+            progs.append(Program("r_%s_closure" % kname, stmts, family="rng_" + kname.rstrip("0123"), tags={"range-in-closure", "range:" + kname.rstrip("0123")} | ({"map-order"} if "map" in kname else set())))
     return progs
 
 
@@ -1521,6 +1560,10 @@ C13_BODIES = [
     ("eta_ptr_receiver_nil_first", "var cur *pt@\nadd := func(d int) int { return cur.Add(d) }\ncur = &pt@{a, 0}\nreturn add(b)"),
     ("eta_field_func", "type holder struct{ f func(int) int }\nh := holder{f: func(x int) int { return x + 1 }}\ncall := func(x int) int { return h.f(x) }\nr := call(a)\nh.f = func(x int) int { return x + 2 }\nreturn (r << 4) ^ call(a)"),
     ("eta_iface_method", "var sm interface{ Sum() int } = pt@{a, 1}\nget := func() int { return sm.Sum() }\nr := get()\nsm = pt@{b, 2}\nreturn (r << 4) ^ get()"),
+    ("eta_funcvar_multi_define", "h := func(x int) int { return x + 1 }\nf := func(x int) int { return h(x) }\nr := f(a)\nh, k := func(x int) int { return x + 20 }, b\nreturn (r << 4) ^ f(a) ^ k"),
+    ("eta_funcvar_param", "apply := func(h func(int) int) func(int) int {\n\tw := func(x int) int { return h(x) }\n\th = func(x int) int { return x + 30 }\n\treturn w\n}\nreturn apply(func(x int) int { return x + 1 })(a) + b"),
+    ("eta_funcvar_addr_taken", "h := func(x int) int { return x + 1 }\nf := func(x int) int { return h(x) }\np := &h\nr := f(a)\n*p = func(x int) int { return x + 40 }\nreturn (r << 4) ^ f(b)"),
+    ("eta_funcvar_range_assign", "h := func(x int) int { return x + 1 }\nf := func(x int) int { return h(x) }\nr := f(a)\nfor _, h = range []func(int) int{func(x int) int { return x + 50 }} {\n}\nreturn (r << 4) ^ f(b)"),
     ("eta_permuted", "flip := func(x, y int) int { return sub@(y, x) }\nsame := func(x, y int) int { return sub@(x, y) }\nreturn (flip(a, b) << 8) ^ same(a, b)"),
     ("eta_duplicated", "dup := func(x, y int) int { return sub@(y, y) }\nfst := func(x, y int) int { return dbl@(x) }\nreturn (dup(a, b) << 8) ^ fst(a, b)"),
     ("eta_rotated3", "rot := func(x, y, z int) int { return join3@(z, x, y) }\nreturn rot(a, b, a + b)"),
@@ -1582,6 +1625,10 @@ def c12_injections():
     I.append(("labelled_continue", [("raw", "Lc:\n\tfor li := 0; li < 3; li++ {\n\t\tfor lj := 0; lj < 2; lj++ {\n\t\t\tif g3 && lj == 1 {\n\t\t\t\tcontinue Lc\n\t\t\t}\n\t\t\tYield(li*10 + lj + 904)\n\t\t}\n\t}")]))
     I.append(("labelled_continue_same_loop", [("raw", "Lx:\n\tfor li := 0; li < 2; li++ {\n\t\tif g3 && li == 0 {\n\t\t\tcontinue Lx\n\t\t}\n\t\tYield(li + 905)\n\t}")]))
     I.append(("select", [("raw", "sc := make(chan int, 1)\nsc <- a\nselect {\ncase sv := <-sc:\n\tYield(sv + 906)\ndefault:\n\tYield(b + 907)\n}")]))
+    I.append(("select_break_in_loop", [("raw", "for si := 0; si < 3; si++ {\n\tsc := make(chan int, 1)\n\tif g3 || si == 1 {\n\t\tsc <- si\n\t}\n\tselect {\n\tcase sv := <-sc:\n\t\tif sv == 1 {\n\t\t\tbreak\n\t\t}\n\t\trt.Emit(40, sv)\n\tdefault:\n\t\trt.Emit(rt.EFF, 970)\n\t}\n\tYield(si + 971)\n}")]))
+    I.append(("select_break_toplevel", [("raw", "sc := make(chan int, 1)\nsc <- a\nselect {\ncase sv := <-sc:\n\tif g3 {\n\t\tbreak\n\t}\n\trt.Emit(40, sv)\n}"), Y("a + 972")]))
+    I.append(("select_continue_in_loop", [("raw", "for si := 0; si < 3; si++ {\n\tsc := make(chan int, 1)\n\tsc <- si\n\tselect {\n\tcase sv := <-sc:\n\t\tif sv == 1 && g3 {\n\t\t\tcontinue\n\t\t}\n\t}\n\tYield(si + 973)\n}")]))
+    I.append(("select_send_default", [("raw", "sc := make(chan int, 1)\nselect {\ncase sc <- a:\n\trt.Emit(rt.EFF, 974)\ndefault:\n\trt.Emit(rt.EFF, 975)\n}\nrt.Emit(40, <-sc)"), Y("a + 976")]))
     I.append(("defer", [("raw", "defer rt.Emit(rt.EFF, 908)"), Y("a + 909")]))
     I.append(("defer_yield", [("raw", "defer Yield(a + 910)"), Y("b + 911")]))
     I.append(("defer_in_if", [("raw", "if g3 {\n\tdefer rt.Emit(rt.EFF, 940)\n}"), Y("a + 941"), ("eff", 942)]))
